@@ -65,6 +65,9 @@ def run(ctx) -> None:
     ctx.reuse("C13.step-guard", c16.override_set)
     ctx.reuse("C13.template", c17.open_config)
     ctx.guard("C13.siblings", siblings)
+    from . import objmodel
+
+    ctx.guard("C13.step-guard", objmodel.worklist_model, "C13.step-guard")
     ctx.guard("C13.selection-array", selection_array)
     from .common import memo_rule
 
